@@ -4,21 +4,23 @@
 From RSP Require Import Base Consts Ttl Crypt Packet Rewrite Choose Proxy Slots_proofs.
 Local Open Scope N_scope.
 
+(* All statements are for EVERY allocation-failure oracle fs (see Proxy.v): they hold whatever runs out of memory. *)
+
 (* an occupied slot is never written *)
-Theorem C11_occupied_refused : forall md5 cfg st s id h h',
-  slot_of st s id = Some h' -> internal_sendrq md5 cfg st s id h = None.
+Theorem C11_occupied_refused : forall md5 cfg fs st s id h h',
+  slot_of st s id = Some h' -> internal_sendrq md5 cfg fs st s id h = None.
 Proof. exact internal_sendrq_occupied. Qed.
 Print Assumptions C11_occupied_refused.
 
 (* whatever sendrq does -- insert, or drop and forget -- every occupied slot of every server keeps its request *)
-Theorem C11_never_displaces : forall md5 cfg st h st' o,
-  sendrq md5 cfg st h = (st', o) -> keeps_slots st st'.
+Theorem C11_never_displaces : forall md5 cfg fs st h st' o,
+  sendrq md5 cfg fs st h = (st', o) -> keeps_slots st st'.
 Proof. exact sendrq_keeps. Qed.
 Print Assumptions C11_never_displaces.
 
 (* sendrq announces at most one identifier; it was free, lies in the table, and with status-server enabled
    identifier 0 goes to Status-Server probes and to nothing else *)
-Theorem C11_allocation : forall md5 cfg st h st' o r s, sendrq md5 cfg st h = (st', o) ->
+Theorem C11_allocation : forall md5 cfg fs st h st' o r s, sendrq md5 cfg fs st h = (st', o) ->
   get_rq st h = Some r -> rq_to r = Some s -> s_nextid (get_server st s) <= Consts.MAX_REQUESTS ->
   let statsrv_on := negb (s_statsrv (get_server st s) =? Consts.RSP_STATSRV_OFF) in
   let isprobe := match rq_msg r with Some m => m_code m =? Consts.RAD_Status_Server | None => false end in
@@ -29,27 +31,27 @@ Proof. exact sendrq_ids. Qed.
 Print Assumptions C11_allocation.
 
 (* the Identifier octet of the packet placed in slot id is id *)
-Theorem C11_wire_id : forall md5 cfg st s id h st' o, internal_sendrq md5 cfg st s id h = Some (st', o) ->
+Theorem C11_wire_id : forall md5 cfg fs st s id h st' o, internal_sendrq md5 cfg fs st s id h = Some (st', o) ->
   exists b, o = [OEnq s id b] /\ nth 1 b 0 = id.
 Proof. exact internal_sendrq_wire_id. Qed.
 Print Assumptions C11_wire_id.
 
 (* a scan that finds nothing means every identifier of the range was refused (table full => dropped) *)
-Theorem C11_full_means_full : forall md5 cfg fuel st s i limit h, (N.to_nat (limit - i) <= fuel)%nat ->
-  scan_ids md5 cfg fuel st s i limit h = None ->
-  forall j, i <= j < limit -> internal_sendrq md5 cfg st s j h = None.
+Theorem C11_full_means_full : forall md5 cfg fs fuel st s i limit h, (N.to_nat (limit - i) <= fuel)%nat ->
+  scan_ids md5 cfg fs fuel st s i limit h = None ->
+  forall j, i <= j < limit -> internal_sendrq md5 cfg fs st s j h = None.
 Proof. exact scan_ids_none. Qed.
 Print Assumptions C11_full_means_full.
 
 (* a reply whose Identifier names an empty slot is delivered to nobody *)
-Theorem C11_reply_needs_holder : forall md5 rx cfg st s buf now rnd, slot_of st s (nth 1 buf 0) = None ->
-  exists r, snd (replyh md5 rx cfg st s buf now rnd) = [ORet r].
+Theorem C11_reply_needs_holder : forall md5 rx cfg fs st s buf now rnd, slot_of st s (nth 1 buf 0) = None ->
+  exists r, snd (replyh md5 rx cfg fs st s buf now rnd) = [ORet r].
 Proof. exact replyh_unmatched. Qed.
 Print Assumptions C11_reply_needs_holder.
 
 (* dropped AND forgotten: when sendrq places nothing, the originating client's cache entry for the
    request's Identifier is gone, so the client's retransmission is treated as new *)
-Theorem C11_drop_forgets : forall md5 cfg st h st' o r c, sendrq md5 cfg st h = (st', o) ->
+Theorem C11_drop_forgets : forall md5 cfg fs st h st' o r c, sendrq md5 cfg fs st h = (st', o) ->
   get_rq st h = Some r -> rq_from r = Some c -> enq_ids o = [] ->
   cache_entry st' c (rq_rqid r) = None.
 Proof. exact sendrq_drop_forgets. Qed.
